@@ -25,6 +25,8 @@ func init() {
 func runC20(r *an.Run) {
 	p := r.Prog
 	gs := "discovery.AuthenticatedGossiper."
+	// the direction of an update: its channel flags masked with the direction bit
+	dirTerm := canonTerm(`^\(.*ChannelFlags & lnwire\.ChanUpdateDirection\)$|^\(\$p\d & lnwire\.ChanUpdateDirection\)$`)
 
 	r.Obl("signatures-over-the-signed-digest", "MIRROR",
 		"validateChannelAnn1 returns nil only after four Verify calls succeeded, each on the double hash of a.DataToSign() with the pairing (BitcoinSig1, BitcoinKey1), (BitcoinSig2, BitcoinKey2), (NodeSig1, NodeID1), (NodeSig2, NodeID2); the channel update and node announcement validators verify their single signature over the double hash of DataToSign under the key they are given / the announced node id; DataToSign of the three messages mentions every field of the message except the signatures",
@@ -181,6 +183,27 @@ func runC20(r *an.Run) {
 					case "*nMsg.optionalMsgFields.capacity", "cp":
 					default:
 						o.FailAt(f.ID+"#edge-"+fld, s.Where(), "edge.%s is set from %s", fld, c)
+					}
+				}
+			}
+			// once the funding output was validated, the edge always carries what validation returned
+			if len(fund) == 1 && len(add) > 0 {
+				oke, _ := f.OkEdges(fund[0], an.OkErrNil)
+				for _, fld := range []string{"Capacity", "ChannelPoint", "FundingScript"} {
+					stop := map[*an.FlowVertex]bool{}
+					for _, s := range f.Assigns(an.FieldPath(an.LocalNamed("edge"), fld), false) {
+						if c := an.Text(s.Node.(*ast.AssignStmt).Rhs[0]); c == "capacity" || c == "op" || c == "fn.Some(script)" {
+							stop[s.V] = true
+						}
+					}
+					if len(stop) == 0 {
+						o.FailAt(f.ID+"#validated-"+fld+"-unused", fund[0].Where(), "the %s returned by funding validation is not stored on the edge", fld)
+						continue
+					}
+					for e := range oke {
+						if f.Graph().Reach(e.To, nil, stop)[add[0].V] {
+							o.FailAt(f.ID+"#validated-"+fld+"-skipped", add[0].Where(), "after a successful funding validation the edge can be added without the validated %s", fld)
+						}
 					}
 				}
 			}
@@ -365,7 +388,7 @@ func runC20(r *an.Run) {
 					as := s.Node.(*ast.AssignStmt)
 					c := an.Text(as.Rhs[0])
 					for dir, want := range map[int64]string{0: "NodeKey1()", 1: "NodeKey2()"} {
-						if ok, _ := g.Guarded(s, an.Cmp(an.Any(), an.EQ, an.IntConst(dir), "")); ok {
+						if ok, _ := g.Guarded(s, an.Cmp(dirTerm, an.EQ, an.IntConst(dir), "")); ok {
 							n++
 							o.Site("%s: direction %d -> %s", fn, dir, c)
 							if !strings.HasSuffix(c, want) {
@@ -392,8 +415,8 @@ func runC20(r *an.Run) {
 				for dir, ts := range map[int64]string{0: "edge1Timestamp", 1: "edge2Timestamp"} {
 					// below case dir, the write needs edgeNTimestamp.Before(policy.LastUpdate)
 					fact := an.AnyOf("other direction, or stored timestamp before the new one",
-						an.Cmp(an.Any(), an.NE, an.IntConst(dir), ""),
-						an.Cmp(an.Any(), an.EQ, an.IntConst(1-dir), ""),
+						an.Cmp(dirTerm, an.NE, an.IntConst(dir), ""),
+						an.Cmp(dirTerm, an.EQ, an.IntConst(1-dir), ""),
 						an.Truth(an.CallNamed("Before", an.LocalNamed(ts), an.FieldPath(an.Param(1), "LastUpdate")), true, ""))
 					guarded(o, b, wr[0], fact)
 				}
@@ -408,10 +431,17 @@ func runC20(r *an.Run) {
 				}
 			}
 			st := p.Func("graph.Builder.IsStaleEdgePolicy")
+			nDir := 0
+			defer func() {
+				if nDir != 2 {
+					o.FailAt(st.ID+"#direction-cases", st.Where(st.Body.Pos()), "IsStaleEdgePolicy decides %d direction cases on the direction bit of the flags, expected 2", nDir)
+				}
+			}()
 			for _, s := range st.Returns() {
 				c := an.Text(s.Node.(*ast.ReturnStmt).Results[0])
 				for dir, ts := range map[int64]string{0: "edge1Timestamp", 1: "edge2Timestamp"} {
-					if ok, _ := st.Guarded(s, an.Cmp(an.Any(), an.EQ, an.IntConst(dir), "")); ok {
+					if ok, _ := st.Guarded(s, an.Cmp(dirTerm, an.EQ, an.IntConst(dir), "")); ok {
+						nDir++
 						o.Site("IsStaleEdgePolicy direction %d -> %s", dir, c)
 						if c != "!"+ts+".Before(timestamp)" {
 							o.FailAt(st.ID+"#direction-timestamp", s.Where(), "direction %d is stale iff %s, expected !%s.Before(timestamp)", dir, c, ts)
@@ -524,6 +554,13 @@ func runC20(r *an.Run) {
 			ba := b.Calls(an.CalleeNamed("AddNode"), false)
 			if need(o, b, "Graph.AddNode", ba, 1) {
 				mustPass(o, b, "assertNodeAnnFreshness", b.Calls(an.CalleeIs("graph.Builder.assertNodeAnnFreshness"), false), an.OkErrNil, ba)
+				for _, s := range b.Calls(an.CalleeIs("graph.Builder.assertNodeAnnFreshness"), false) {
+					a := b.ArgCanon(s)
+					o.Site("addNode freshness(%s, %s)", a[1], a[2])
+					if a[1] != "$p1.PubKeyBytes" || a[2] != "$p1.LastUpdate" {
+						o.FailAt(b.ID+"#freshness-args", s.Where(), "freshness is asserted for (%s, %s), expected the announced node's key and timestamp", a[1], a[2])
+					}
+				}
 			}
 			fr := p.Func("graph.Builder.assertNodeAnnFreshness")
 			for _, s := range fr.StrictSuccessReturns() {
